@@ -415,6 +415,21 @@ theorem c04_store_runs_blocks (trT : List XCall) (k : IntKind) (trC : List CtudC
   ⟨instRun_ton trT {}, instRun_tof trT {}, instRun_tp trT {}, instRun_ctud k trC {},
    instRun_rtrig trB {}, instRun_ftrig trB {}⟩
 
+/-! ## Documented behaviour that is part of the specification used here -/
+
+/-- ET returns to zero once timing has ended — one call after a TOF delay has expired, and at once when
+a TP pulse ends even if IN is still TRUE — where IEC 61131-3 Figure 15 keeps ET at PT until IN rises
+(TOF) / falls (TP).  This is the runtime's documented diagram (docs/specs/08 §5) and is asserted by its
+own tests (fb_timers_full.rs, iec_timers.rs); `Spec` follows it, and code and `Spec` agree (PT = 10). -/
+theorem c04_documented_et_reset_example :
+    (prefixes [⟨true, 10, 0⟩, ⟨false, 10, 10⟩, ⟨false, 10, 1⟩]).map Spec.tof =
+        [{ q := true, et := 0 }, { q := false, et := 10 }, { q := false, et := 0 }] ∧
+      outputs tofStep {} [⟨true, 10, 0⟩, ⟨false, 10, 10⟩, ⟨false, 10, 1⟩] =
+        [{ q := true, et := 0 }, { q := false, et := 10 }, { q := false, et := 0 }] ∧
+      (prefixes [⟨true, 10, 0⟩, ⟨true, 10, 10⟩]).map Spec.tp = [{ q := true, et := 0 }, { q := false, et := 0 }] ∧
+      outputs tpStep {} [⟨true, 10, 0⟩, ⟨true, 10, 10⟩] = [{ q := true, et := 0 }, { q := false, et := 0 }] := by
+  decide
+
 /-! ## Non-vacuity -/
 
 /-- `c04_ton_exec_trace`: a steady trace on which the timer fires exactly when the accumulated time
@@ -461,5 +476,26 @@ example :
     let g : List (Nat × Call) := [(0, .rtrig true), (1, .sr true false), (0, .rtrig true)]
     (st.run g).get 0 = instRun {} [.rtrig true, .rtrig true] ∧ ((st.run g).get 1).q1 = true := by
   decide
+
+/-- `c04_ton_q_imp_in`, `c04_ton_et_monotone`, `c04_ton_exec_et_monotone`: Q does become TRUE, and two
+consecutive timing calls with ET below the second PT exist (ET 4 then 9, PT = 10). -/
+example :
+    (tonStep { et := 6 } ⟨true, 10, 4⟩).2.q = true ∧
+      (tonStep {} ⟨true, 10, 4⟩).2.et ≤ normPt 10 ∧
+      (tonStep (tonStep {} ⟨true, 10, 4⟩).1 ⟨true, 10, 5⟩).2.et = 9 ∧
+      (execTon (execTon {} ⟨true, 10, 0⟩).1 ⟨true, 10, 4⟩).2.et = 4 := by decide
+
+/-- `c04_tp_et_monotone_partial`, `c04_tp_spec_ignores_in`: a pulse that runs over two consecutive calls
+without a new rising edge. -/
+example :
+    let s := tpRun [⟨true, 10, 0⟩]
+    (tpStep s ⟨true, 10, 3⟩).1.active = true ∧ (tpStep (tpStep s ⟨true, 10, 3⟩).1 ⟨false, 10, 3⟩).1.active = true ∧
+      (Spec.tpRunning [⟨true, 10, 3⟩, ⟨true, 10, 0⟩]).isSome = true := by decide
+
+/-- `c04_counters_hold_at_bounds`: the bounds are reachable states (INT up-counter at 32767, ULINT
+down-counter at 0). -/
+example :
+    (ctuStep .int { cv := 32766 } ⟨true, false, 1⟩).1.cv = IntKind.int.hi ∧
+      (ctdStep .ulint { cv := 1 } ⟨true, false, 1⟩).1.cv = IntKind.ulint.lo := by decide
 
 end TrustVerif.C04
